@@ -40,6 +40,7 @@ type probe struct {
 	want    reflect.Value // struct value to compare with; invalid = no comparison
 	outKind int
 	send    *sendSpec // how the client is given the value (nil = the struct setters)
+	pre     string    // what the handler does before the judged bind: "" | body-first | multipartform-first
 
 	// results
 	ran      bool
@@ -112,6 +113,14 @@ func (p *probe) handler(c fiber.Ctx) error {
 				p.stack = string(debug.Stack())
 			}
 		}()
+		switch p.pre {
+		case "body-first":
+			// an earlier Bind().Body() into another struct of the type (e.g. a middleware);
+			// the judged bind that follows must see the same request
+			_ = b.Body(reflect.New(p.typ.RT).Interface())
+		case "multipartform-first":
+			_, _ = c.MultipartForm()
+		}
 		err = p.call(b, out)
 	}()
 	if p.panicVal != "" {
@@ -177,11 +186,13 @@ type rig struct {
 	tmp   []string // files written for AddFile(path), removed after the request
 }
 
-func newRig(split bool) *rig {
-	r := &rig{split: split}
+func newRig(cfg srvCfg) *rig {
+	r := &rig{split: cfg.split}
 	r.app = fiber.New(fiber.Config{
-		EnableSplittingOnParsers: split,
-		ReadBufferSize:           1 << 16, // long slices in the query string / header block
+		EnableSplittingOnParsers:     cfg.split,
+		DisablePreParseMultipartForm: cfg.lazy,
+		StreamRequestBody:            cfg.stream,
+		ReadBufferSize:               1 << 16, // long slices in the query string / header block
 	})
 	r.app.All("/b", func(c fiber.Ctx) error { return r.cur.Load().handler(c) })
 	r.ln = fasthttputil.NewInmemoryListener()
